@@ -250,3 +250,29 @@ Theorem C11_partial_positions : forall L sched i j kd k,
 Proof.
   intros L sched i j kd k tr. apply (monitor_sound covered tr (monitor_accepts L sched)).
 Qed.
+
+(* ---- the supporting invariants, as statements about every reachable state ----------------- *)
+Theorem one_worker_in_service : forall L sched w1 w2,
+  let s := run step (init L) sched in
+  active (wk s w1) = true -> active (wk s w2) = true -> w1 = w2.
+Proof. intros L sched w1 w2 s. apply (i_act_uniq s (Inv_run L sched)). Qed.
+
+Theorem entry_excludes_service : forall L sched,
+  let s := run step (init L) sched in
+  queue s <= 1 /\
+  (queue s = 1 -> reqs s <> [] /\ (forall w, active (wk s w) = false) /\ ~ tokio s /\ sd s = SdIdle).
+Proof.
+  intros L sched s. pose proof (Inv_run L sched) as I. fold s in I. split.
+  - apply (i_q1 s I).
+  - intro Q. split; [apply (i_reqs_q s I Q) | apply (i_q_excl s I Q)].
+Qed.
+
+Theorem requests_lock_exclusive : forall L sched,
+  let s := run step (init L) sched in
+  (rlock s = Some ByIO <-> io_holds (io s) = true) /\
+  (forall w, rlock s = Some (ByW w) <-> wk_holds (wk s w) = true).
+Proof.
+  intros L sched s. pose proof (Inv_run L sched) as I. fold s in I. split.
+  - apply (i_lock_io s I).
+  - apply (i_lock_wk s I).
+Qed.
